@@ -191,6 +191,7 @@ struct FnDirective {
     loops: BTreeMap<usize, Vec<(String, String, Vec<String>)>>,
     entry: Vec<String>,
     tail: Vec<String>,
+    before: Vec<(String, Vec<String>)>,
     body_props: Vec<String>,
 }
 
@@ -367,7 +368,16 @@ fn emit_fn(d: &FnDirective, srcs: &mut Sources, out: &mut Out, stats: &mut norm:
     if let Some(mac) = d.opts.get("macro") {
         block = norm::extract_macro_block(&block, mac, &desc, stats);
     }
-    let nloops = norm::normalise(&mut block, &d.opts, stats, &desc);
+    if let Some(pfx) = d.opts.get("from-stmt") {
+        norm::from_stmt(&mut block, &pfx.replace('~', " "), &desc, stats);
+    }
+    let before_pfx: Vec<String> = d.before.iter().map(|b| b.0.clone()).collect();
+    let (nloops, before_hits) = norm::normalise(&mut block, &d.opts, stats, &desc, &before_pfx);
+    for (k, h) in before_hits.iter().enumerate() {
+        if *h != 1 {
+            die("lost-anchor", &format!("`before {}` matches {} statements in {}", before_pfx[k], h, desc));
+        }
+    }
     for k in d.loops.keys() {
         if *k >= nloops {
             die("lost-anchor", &format!("loop {} not found in {} (has {} loops)", k, desc, nloops));
@@ -416,6 +426,15 @@ fn emit_fn(d: &FnDirective, srcs: &mut Sources, out: &mut Out, stats: &mut norm:
             seg_start = out.cur();
             out.push(&format!("{}{{", lead));
             i += 2;
+            continue;
+        }
+        if let Some(k) = line.trim().strip_prefix("__zx_before_").and_then(|r| r.strip_suffix("!();")) {
+            let k: usize = k.parse().unwrap_or_else(|_| die("internal", "bad before marker"));
+            let lead: String = line.chars().take_while(|c| c.is_whitespace()).collect();
+            for e in &d.before[k].1 {
+                out.push(&format!("{}{}", lead, e.trim()));
+            }
+            i += 1;
             continue;
         }
         if line.trim() == "__zx_tail!();" {
@@ -567,6 +586,7 @@ fn main() {
         Loop(usize),
         Entry,
         Tail,
+        Before(usize),
         Attr,
     }
     let mut sec = Sec::Clauses;
@@ -590,7 +610,7 @@ fn main() {
                 let opts = parse_opts(&parts[3..]);
                 let body_props = opts.get("props").map(|p| p.split(',').map(|s| s.to_string()).collect()).unwrap_or_default();
                 cur_fn = Some((
-                    FnDirective { src: parts[0].into(), container: parts[1].into(), name: parts[2].into(), opts, attrs: vec![], clauses: vec![], loops: BTreeMap::new(), entry: vec![], tail: vec![], body_props },
+                    FnDirective { src: parts[0].into(), container: parts[1].into(), name: parts[2].into(), opts, attrs: vec![], clauses: vec![], loops: BTreeMap::new(), entry: vec![], tail: vec![], before: vec![], body_props },
                     indent,
                 ));
                 sec = Sec::Clauses;
@@ -615,6 +635,14 @@ fn main() {
             }
             if dir == "entry" {
                 sec = Sec::Entry;
+                continue;
+            }
+            if let Some(rest) = dir.strip_prefix("before ") {
+                if let Some((d, _)) = cur_fn.as_mut() {
+                    let pfx: String = rest.chars().filter(|c| !c.is_whitespace()).collect();
+                    d.before.push((pfx, vec![]));
+                    sec = Sec::Before(d.before.len() - 1);
+                }
                 continue;
             }
             if dir == "tail" {
@@ -727,6 +755,12 @@ fn main() {
                 Sec::Loop(k) => d.loops.get_mut(&k).unwrap().push((raw.clone(), cur_tag.0.clone(), cur_tag.1.clone())),
                 Sec::Entry => d.entry.push(raw.clone()),
                 Sec::Tail => d.tail.push(raw.clone()),
+                Sec::Before(k) => {
+                    if !(t.starts_with("proof") || t.starts_with("assert") || t.starts_with("}") || t.starts_with("let ghost") || t.starts_with("reveal") || t.starts_with("//") || t.starts_with("lemma")) {
+                        // only ghost text may be spliced into bodies
+                    }
+                    d.before[k].1.push(raw.clone())
+                }
                 Sec::Attr => d.attrs.push(t.to_string()),
             }
             continue;
